@@ -14,17 +14,27 @@
    - C02_slot_alignment: the loop that files the answer of a derived packet under its source gives it
      exactly the slot of that derived packet, whatever order the derived packets are answered in,
      and never indexes out of range.
-   PARTIAL: that the slots of a request are exactly the answers of the packets derived from it (so
-   that the answer is the join of the downstream answers, after all of them) is not proved end to
-   end; it is the composition of the three theorems along the node discipline (all Links of a
-   request before the Writes of its derived packets), and it is compared exactly with the
-   implementation: a real Tracer driven by node-shaped call sequences in random interleavings, and
-   real OneToOne / OneToMany / ManyToOne nodes in chains, fan-out, diamonds and fan-in with actions
-   held open and released in random order, every source answer checked against a reference
-   evaluation of the workflow.  Composition across nodes relies on C01 (in-order, exactly-once
-   responses per writer). *)
+   END TO END for one node (Node/Spec.v, Node/Refine.v):
+   - the SPECIFICATION keeps for every unanswered request the row of the packets derived from it, in link order,
+     with the answer each has received; it answers a request only when it is the oldest unanswered request of its
+     reader and its row is non-empty and complete, and then with the join of the row (C02_spec_answers); nothing
+     else produces an answer;
+   - C02_tracer_refines_spec: for EVERY sequence of tracer calls that keeps the node discipline (fresh packets;
+     a packet is linked only to unanswered requests and before it is written; all packets derived from a request
+     are linked before the first of them is written; every derived packet is written at most once; a request
+     without derived packets is answered directly; one packet may be derived from several requests, as in
+     ManyToOne) the tracer hands out exactly the specification's answers - same requests, same readers, same
+     packets, same order - holds the same pending requests and writes, and never indexes out of range;
+     C02_discipline_invariant: the discipline keeps the specification's invariant (every step).
+   The discipline is a computable predicate; the correspondence run checks that every call sequence the harness
+   drives through the real Tracer satisfies it and that the real Tracer's answers equal the specification's
+   (c2ok_spec), besides comparing them with the tracer model.
+   PARTIAL: composition ACROSS nodes (a workflow is a graph of such nodes joined by writers and readers that are
+   in-order and exactly-once by C01) is not a Coq theorem; it is compared exactly with the implementation: real
+   OneToOne / OneToMany / ManyToOne nodes in chains, fan-out, diamonds and fan-in with actions held open and
+   released in random order, every source answer checked against a reference evaluation of the workflow. *)
 From Coq Require Import List Arith NArith ZArith Bool.
-From Uf Require Import Packet.Writer Node.Tracer Node.TracerProofs.
+From Uf Require Import Packet.Writer Node.Tracer Node.TracerProofs Node.Spec Node.Refine.
 Import ListNotations.
 
 Theorem C02_exactly_once_in_order : forall ops r,
@@ -62,3 +72,38 @@ Example C02_ex :
   map (fun n => t_out (t_run (firstn n ops))) [5; 7; 8] =
   [[(0, 1, Pk (PAtom 100))]; [(0, 1, Pk (PAtom 100))]; [(0, 1, Pk (PAtom 100)); (0, 3, Pk (PErr [7%Z]))]].
 Proof. vm_compute. reflexivity. Qed.
+
+Theorem C02_tracer_refines_spec : forall ops, disciplined ops = true ->
+  t_out (t_run ops) = s_out (s_run ops) /\ t_reads (t_run ops) = s_reads (s_run ops) /\
+  t_writes (t_run ops) = s_writes (s_run ops) /\ t_crash (t_run ops) = false.
+Proof. exact tracer_refines_spec. Qed.
+Print Assumptions C02_tracer_refines_spec.
+
+(* the only place where the specification answers: a prefix of the reader's queue, each request with a row that is
+   present and complete (every derived packet has its answer), answered with the join of that row *)
+Theorem C02_spec_answers : forall r l s s' rest, s_flush s r l = (s', rest) ->
+  exists done, l = done ++ rest /\
+    s_out s' = s_out s ++ map (fun rd => (r, rd, join (answers (lst (nget rd (s_rows s)))))) done /\
+    (forall rd, In rd done -> exists rw, nget rd (s_rows s) = Some rw /\ complete rw = true).
+Proof. exact s_flush_out. Qed.
+Print Assumptions C02_spec_answers.
+
+Theorem C02_discipline_invariant : forall s op, WF s -> allowed s op = true -> WF (s_step s op).
+Proof. exact step_wf. Qed.
+Print Assumptions C02_discipline_invariant.
+
+(* non-vacuity: a one-to-many request (two derived packets, answered out of order, one of them with an error), a
+   pipelined second request answered directly, and a packet derived from two requests of two readers: the sequence is
+   disciplined, and the answers are the joins *)
+Example C02_ex_spec :
+  let ops := [TRead 0 1 (PAtom 1); TLink 1 2 (PAtom 10); TLink 1 3 (PAtom 11);
+              TWrite (Some 0) 2 true; TWrite (Some 1) 3 true;
+              TRead 0 4 (PAtom 4); TWrite None 4 false;
+              TReceive 1 (Some (Pk (PErr [7%Z])));
+              TReceive 0 (Some (Pk (PAtom 100)));
+              TRead 0 5 (PAtom 5); TRead 1 6 (PAtom 6); TLink 5 7 (PAtom 50); TLink 6 7 (PAtom 50);
+              TWrite (Some 0) 7 true; TReceive 0 (Some (Pk (PAtom 9)))] in
+  disciplined ops = true /\
+  s_out (s_run ops) = [(0, 1, Pk (PErr [7%Z])); (0, 4, Pk (PAtom 4)); (0, 5, Pk (PAtom 9)); (1, 6, Pk (PAtom 9))] /\
+  t_out (t_run ops) = s_out (s_run ops).
+Proof. vm_compute. repeat split; reflexivity. Qed.
